@@ -48,6 +48,9 @@ def bn_histories(draw):
             s["shape"] = shp
             s["v"] = draw(gen.distinct(shp))
             s["twice"] = draw(st.booleans())
+            s["offset"] = [draw(st.sampled_from([0, 0, 0, 1, -1])) for _ in range(C)]
+            s["defer"] = draw(st.booleans())        # run this call's backward later, after other calls
+            s["g"] = [draw(st.integers(-8, 8)) / 4.0 for _ in range(5)]
         elif k == "load":
             s["rm"] = [draw(st.integers(-16, 16)) / 8.0 for _ in range(C)]
             s["rv"] = [draw(st.integers(1, 40)) / 8.0 for _ in range(C)]
@@ -80,6 +83,20 @@ def check_bn(c, rec):
     train_forwards = 0
     switched_between_forwards = False
     last_forward_mode = None
+    pending = []          # deferred backward calls: (output tensor, input tensor, g, expected input gradient, label)
+    gtol = 1e-7 if dt == np.float64 else 5e-3
+
+    def run_backward(out, t, g, want, label, when):
+        snap = state_snapshot()
+        out.backward(Tensor(g.copy()))
+        if state_snapshot() != snap:
+            raise Violation("bn_backward_changed_state", f"backward changed running statistics; opts={o} history={hist}")
+        got = np.asarray(t.grad.data, dtype=np.float64)
+        sc = max(1.0, float(np.abs(want).max()))
+        if got.shape != want.shape or not np.all(np.isfinite(got)) or np.abs(got - want).max() > gtol * sc:
+            raise Violation("bn_input_gradient", f"input gradient of {label} (backward run {when}) differs from the gradient of the "
+                                                 f"function that forward computed by {np.abs(got - want).max():.3e}; opts={o} "
+                                                 f"history={hist}", region=when.split()[0])
 
     def state_snapshot():
         if not o["track"]:
@@ -115,8 +132,12 @@ def check_bn(c, rec):
             hist.append(f"load rm={s['rm']} rv={s['rv']}")
         else:
             x = gen.arr(s["v"], s["shape"], dt)
+            if any(s.get("offset", [])):
+                big = 1.0e4 if dt == np.float64 else 64.0
+                x = (x.astype(np.float64) + (np.array(s["offset"]) * big).reshape([1, C] + [1] * (x.ndim - 2))).astype(dt)
             x64 = x.astype(np.float64)
-            hist.append(f"forward{'+backward' if k == 'forward_backward' else ''}({s['shape']}, training={training})")
+            hist.append(f"forward{'+backward' if k == 'forward_backward' else ''}({s['shape']}, training={training}"
+                        f"{', offset data' if any(s.get('offset', [])) else ''})")
             if last_forward_mode is not None and last_forward_mode != training:
                 switched_between_forwards = True
             last_forward_mode = training
@@ -158,12 +179,25 @@ def check_bn(c, rec):
                     if state_snapshot() != before:
                         raise Violation("bn_eval_changed_state", f"repeated eval forward changed state; opts={o} history={hist}")
             if k == "forward_backward":
-                snap = state_snapshot()
-                out.backward(Tensor(gen.cyc([1.0, -0.5, 0.25, 2.0], out.shape, dt)))
-                if state_snapshot() != snap:
-                    raise Violation("bn_backward_changed_state", f"backward changed running statistics; opts={o} history={hist}")
-                if not np.all(np.isfinite(t.grad.data)):
-                    raise Violation("bn_grad_nonfinite", f"non-finite input gradient; opts={o} history={hist}")
+                g = gen.cyc(s.get("g", [1.0, -0.5, 0.25, 2.0]), out.shape, dt)
+                g64 = g.astype(np.float64)
+                inv = 1.0 / np.sqrt(var.reshape(shp) + o["eps"])
+                gam = gamma.reshape(shp)
+                if use_batch:
+                    xh = (x64 - mean.reshape(shp)) * inv
+                    gg = g64 * gam
+                    want_dx = inv * (gg - gg.mean(axis=axes, keepdims=True) - xh * (gg * xh).mean(axis=axes, keepdims=True))
+                else:
+                    want_dx = g64 * gam * inv
+                label = hist[-1]
+                if s.get("defer"):
+                    pending.append((out, t, g, want_dx, label))
+                else:
+                    run_backward(out, t, g, want_dx, label, "immediately")
+    for out, t, g, want_dx, label in pending:
+        run_backward(out, t, g, want_dx, label, "deferred (after later calls on the same layer)")
+    if pending:
+        rec.tag("deferred_backward")
     rec.nontrivial(switched_between_forwards and train_forwards >= 2)
     rec.tag("momentum_none" if o["momentum"] is None else "momentum_num", "track" if o["track"] else "no_track",
             "affine" if o["affine"] else "no_affine", f"rank{o['rank']}", o["dtype"] if not c["opts"]["defaults"] else "defaults")
@@ -181,7 +215,7 @@ def dropout_histories(draw):
         s = {"k": k}
         if k.startswith("forward"):
             shp = draw(gen.shapes(0, 4, 60))
-            s.update(shape=shp, v=draw(gen.grid_away_from_zero(shp)), seed=draw(st.integers(0, 2 ** 31 - 1)),
+            s.update(shape=shp, v=draw(gen.grid(shp, -6, 6)), seed=draw(st.integers(0, 2 ** 31 - 1)),
                      g=draw(gen.upstream()))
         steps.append(s)
     return {"p": p, "steps": steps, "dtype": draw(gen.DTYPES), "default_p": draw(st.integers(0, 6)) == 0}
@@ -205,10 +239,16 @@ def check_dropout(c, rec):
         x = gen.arr(s["v"], s["shape"], dt)
         hist.append(f"{k}({s['shape']}, training={training})")
         t = Tensor(x.copy(), requires_grad=(k == "forward_backward"))
+        # the mask only depends on the seed and the shape: discover it with an all-ones twin call (C19 establishes
+        # that the same seed reproduces the same draws), so that inputs that are exactly 0 can be judged too
+        sg.manual_seed(s["seed"])
+        twin = np.asarray(m(Tensor(np.ones(x.shape, dtype=dt))).data, dtype=np.float64)
         sg.manual_seed(s["seed"])
         out = m(t)
         y = np.asarray(out.data, dtype=np.float64)
         x64 = x.astype(np.float64)
+        if np.any(x64 == 0):
+            rec.tag("zero_inputs")
         if y.shape != x.shape:
             raise Violation("dropout_shape", f"output shape {y.shape} != input {x.shape}; p={p} history={hist}")
         if not training:
@@ -216,17 +256,19 @@ def check_dropout(c, rec):
                 raise Violation("dropout_eval_not_identity", f"eval-mode Dropout changed values; p={p} history={hist}")
             factor = np.ones(x.shape)
         else:
+            dropped = (twin == 0)                       # the mask of this seed/shape
             keep = x64 / (1 - p) if p < 1 else np.zeros_like(x64)
-            is_zero = (y == 0)
-            is_kept = np.abs(y - keep) <= 4 * np.finfo(dt).eps * np.abs(keep)
-            if not np.all(is_zero | is_kept):
-                i = tuple(np.argwhere(~(is_zero | is_kept))[0])
-                raise Violation("dropout_scale", f"training output element {y[i]} is neither 0 nor x/(1-p) = {keep[i]}; p={p} history={hist}")
-            if p == 0 and np.any(is_zero):
+            expect = np.where(dropped, 0.0, keep)
+            bad = np.abs(y - expect) > 4 * np.finfo(dt).eps * np.abs(expect)
+            if np.any(bad):
+                i = tuple(np.argwhere(bad)[0])
+                raise Violation("dropout_scale", f"training output element {y[i]} is neither 0 (dropped) nor x/(1-p) = {keep[i]} "
+                                                 f"(kept) as the mask of this seed prescribes; p={p} history={hist}")
+            if p == 0 and np.any(dropped):
                 raise Violation("dropout_p0", f"p=0 dropped elements; history={hist}")
-            if p == 1 and np.any(~is_zero):
+            if p == 1 and np.any(~dropped):
                 raise Violation("dropout_p1", f"p=1 kept elements; history={hist}")
-            factor = np.where(is_zero, 0.0, 1.0 / (1 - p) if p < 1 else 0.0)
+            factor = np.where(dropped, 0.0, 1.0 / (1 - p) if p < 1 else 0.0)
         if k == "forward_backward" and out.requires_grad:
             g = gen.cyc(s["g"], out.shape, dt)
             out.backward(Tensor(g.copy()))
